@@ -30,6 +30,12 @@ def bases(seed):
     out.append({"id": "E", "gates": 5, "p": {"label": "verif", "pre": [], "cap": 8, "cbs": [], "ops": [
         {"op": "commit", "v": 2, "vb": 3}, {"op": "commit", "v": 8, "vb": 3}] + [MUL] * 4 + [{"op": "mul", "l": [["O", 3, 1]], "r": [["V", 0, 1], ["V", 1, 2]]},
         {"op": "con", "lc": [["O", 4, 1], ["V", 0, 4], ["1", 0, 9]], "fix": 1}, {"op": "commit", "v": 0, "vb": 0}]}})
+    # F: an empty slot - a commitment to (0, 0), i.e. the identity point - next to an ordinary one, used symmetrically (their sum)
+    out.append({"id": "F", "gates": 1, "p": {"label": "verif", "pre": [], "cap": 1, "cbs": [], "ops": [
+        {"op": "commit", "v": 6, "vb": 7}, {"op": "commit", "v": 0, "vb": 0}, {"op": "commit", "v": 3, "vb": 2},
+        {"op": "mul", "l": [["V", 0, 1], ["V", 1, 1]], "r": [["1", 0, 2]]},
+        {"op": "con", "lc": [["O", 0, 1], ["V", 0, -2], ["V", 1, -2]]},
+        {"op": "commit", "v": 0, "vb": 0}]}})
     for b in out:
         b["seed"] = seed + ord(b["id"])
     return out
@@ -62,7 +68,9 @@ def deviations(b):
                 v = side(); target(v)[i]["vb"] = o["vb"] + 1; devs.append(("commit-blinding-%d" % i, v, "reject"))
             if o["op"] == "con":
                 for t, term in enumerate(o["lc"]):
-                    if term[0] == "V":
+                    # a changed coefficient matters only if the committed value it multiplies is non-zero (side condition of the deviation)
+                    vals = [c["v"] for c in p["ops"] if c["op"] == "commit"]
+                    if term[0] == "V" and vals[term[1]] != 0:
                         v = side(); target(v)[i]["lc"][t][2] = (term[2] + 1) if isinstance(term[2], int) else term[2]
                         if isinstance(term[2], int):
                             devs.append(("%s-coefficient-%d-%d" % (where, i, t), v, "reject"))
@@ -72,6 +80,10 @@ def deviations(b):
     v = side(); del v["ops"][commits[-1]]; devs.append(("commit-missing-last", v, "reject"))      # the last commitment is unreferenced
     if len(commits) >= 2:
         v = side(); i, j = commits[0], commits[1]; v["ops"][i], v["ops"][j] = v["ops"][j], v["ops"][i]; devs.append(("commit-reordered", v, "reject"))
+    # every adjacent transposition of two different commitments, in particular of an identity commitment with its neighbour
+    for a_, b_ in zip(commits, commits[1:]):
+        if (p["ops"][a_]["v"], p["ops"][a_]["vb"]) != (p["ops"][b_]["v"], p["ops"][b_]["vb"]):
+            v = side(); v["ops"][a_], v["ops"][b_] = v["ops"][b_], v["ops"][a_]; devs.append(("commit-transposed-%d-%d" % (a_, b_), v, "reject"))
     v = side(); v["pc"] = {"bb": 3}; devs.append(("blinding-base", v, "reject"))
     v = side(); v["pc"] = {"b": 3}; devs.append(("value-base", v, "reject" if b["gates"] >= 1 else ""))
     return devs
@@ -120,7 +132,7 @@ def run(chk):
     for p in progs:
         chk.count_case(["toy31723", p["id"]])
     chk.finish(
-        rule="five base statements (one- and two-phase, zero to five gates, committed-only and constant-only constraints, application data before and "
+        rule="six base statements (one- and two-phase, zero to five gates, committed-only and constant-only constraints, application data before and "
              "during construction in both phases) x every single verifier-side deviation - transcript label; application data added, missing, changed, "
              "relabelled (before construction, in phase 1, inside a callback); each commitment's value or blinding changed; extra, missing, reordered "
              "commitment; each coefficient over a committed value and each constant changed; blinding base; value base - replayed on secq256k1, zorro, "
